@@ -25,6 +25,8 @@ def run(tier, seed):
                 if new is None:
                     continue
                 new = gen.rotate(new, rng.randrange(len(new)))
+                if rng.random() < 0.3:        # written the way many labs do: backbone and sites in lower case, insert in upper case
+                    new = "".join(ch.lower() if rng.random() < 0.5 else ch for ch in new)
                 if rng.random() < 0.3:        # the very same plasmid, loaded with another origin
                     new = gen.rotate(c["modules"][pos], rng.randrange(1, len(c["modules"][pos])))
                 r = {"fn": "assemble", "enz": espec, "vector": {"id": "vec", "seq": gen.rotate(c["vector"], rng.randrange(len(c["vector"])))},
